@@ -11,7 +11,7 @@ from ..astutil import calls, find_relations, text, walk_no_nested, enclosing_map
 from ..index import AnalysisError
 from ..report import Ctx
 from ..tables import builtin_tables, chain, literal_dict
-from .common import cfg_of
+from .common import call_nodes, cfg_of, guards
 
 ST = 'xmlschema.validators.simple_types'
 FACETS = 'xmlschema.validators.facets'
@@ -448,4 +448,41 @@ def rule_f(ctx: Ctx) -> None:
     ctx.explain('C02.f: every built-in other than string/normalizedString has effective whiteSpace=collapse.')
 
 
-RULES = [rule_a, rule_b, rule_c, rule_d, rule_e, rule_f]
+def rule_g(ctx: Ctx) -> None:
+    """Pattern hand-off slot: a restriction of a union pushes its patterns on the context (only if the slot is
+    empty); the union that consumes them must empty the slot before it decodes a member, on every path."""
+    rule = 'C02.g'
+    n_cons = 0
+    for f in ctx.idx.iter_functions('validators'):
+        if isinstance(f.node, ast.Lambda) or 'context.patterns' not in f.module.segment(f.node):
+            continue
+        g = cfg_of(ctx, f)
+        reads = [n for n in g.nodes if n.kind == 'stmt' and isinstance(n.ast, ast.Assign) and text(n.ast.value) == 'context.patterns']
+        clears = [n for n in g.nodes if n.kind == 'stmt' and isinstance(n.ast, ast.Assign) and text(n.ast.targets[0]) == 'context.patterns'
+                  and text(n.ast.value) == 'None']
+        pushes = [n for n in g.nodes if n.kind == 'stmt' and isinstance(n.ast, ast.Assign) and text(n.ast.targets[0]) == 'context.patterns'
+                  and text(n.ast.value) != 'None']
+        short = f.qualname.split('.', 2)[-1]
+        for r in reads:
+            n_cons += 1
+            members = [n for n, c in call_nodes(g, lambda c: isinstance(c.func, ast.Attribute) and c.func.attr in ('raw_decode', 'raw_encode'))]
+            w = g.must_pass(r, members + [g.exit], clears, kinds='nTF')
+            ok = w is None and bool(clears)
+            ctx.ob(rule, f'{short}: the pushed patterns are taken and the context slot is emptied before any member is processed', f.loc(r.ast), ok,
+                   '' if ok else 'the slot keeps the patterns of this type: the next union decoded with the same context is tested against them '
+                   '(and its own patterns are never pushed because the slot is not empty)', key=f'{f.qualname}|patterns-slot|consume')
+        for p_ in pushes:
+            gs = guards(ctx, f, p_)
+            ok = any(t.replace(' ', '') in ('context.patternsisNone', 'context.patternsisNoneandisinstance(self.primitive_type,XsdUnion)') and lab == 'T'
+                     or ('context.patterns is None' in t and lab == 'T') for t, lab in gs) and text(p_.ast.value) == 'self.patterns'
+            ctx.ob(rule, f'{short}: patterns are pushed only into an empty slot', f.loc(p_.ast), ok, '' if ok else f'guards {sorted(gs)}',
+                   key=f'{f.qualname}|patterns-slot|push')
+    ctx.floor(rule, 'consumers of the context.patterns slot', n_cons, 2)
+    cl = ctx.idx.func('xmlschema.validators.validation.ValidationContext.clear')
+    ok = any(isinstance(s_, ast.Assign) and text(s_.targets[0]) == 'self.patterns' and text(s_.value) == 'None' for s_ in walk_no_nested(cl.node))
+    ctx.ob(rule, 'ValidationContext.clear() empties the patterns slot', cl.loc(), ok, '', key='patterns-slot|clear')
+    ctx.explain('C02.g: typestate of the context.patterns hand-off slot — every consumer empties it (must-pass-through) before '
+                'processing a member type; producers push only into an empty slot.')
+
+
+RULES = [rule_a, rule_b, rule_c, rule_d, rule_e, rule_f, rule_g]
